@@ -54,6 +54,7 @@ type kstate struct {
 	stale    []string // contents the key held when those invalidations failed
 	lo, hi   time.Duration
 	class    string
+	nfShape  string // the marker the key holds was written after a query that reported the absent row in this shape ("" : not a marker of this history's reads)
 }
 
 // wr: the model expects the op to (possibly) write this key.
@@ -61,6 +62,8 @@ type wr struct {
 	class string
 	d     time.Duration // setexp: requested expiry
 	gap   time.Duration // primary entry written through the index path: +5 s allowed
+	must  string        // non-empty: the key HAS to hold an entry after the op (violation key otherwise)
+	shape string        // ... and the shape the query reported an absent row in
 }
 
 type hist struct {
@@ -84,6 +87,7 @@ type hist struct {
 	taintCtxDead                              bool // an invalidation failed under a context that was cancelled once the call returned
 	hits, misses, invalidated, expired, fault int
 	staleReads, outageReads, dbErrReads       int
+	nfReads                                   int // uncached reads of an absent row (any shape)
 }
 
 func (h *hist) P(slot int) string    { return h.keyer(h.db.pk(slot)) }
@@ -301,11 +305,13 @@ func (h *hist) call(o op, fn func()) {
 	}
 	h.panicked = nil
 	h.db.panicOnce = o.Panic
+	h.db.shape = o.NF
 	defer func() {
 		// a panic leaving a go-zero call is recovered the way a request handler's
 		// recover middleware does; the op decides what it means
 		h.panicked = recover()
 		h.db.panicOnce = false
+		h.db.shape = nfBare
 		h.w.inOp.Store(false)
 		after()
 		if !h.cfg.NoCtx {
@@ -514,9 +520,32 @@ func (h *hist) checkScan(written map[string]wr, mustAbsent map[string]string, ff
 		}
 		h.c.Obs("ttl_checks", 1)
 	}
+	// an uncached read on a healthy store leaves what the query returned in the cache
+	mk := make([]string, 0, len(written))
+	for k := range written {
+		mk = append(mk, k)
+	}
+	sort.Strings(mk)
+	for _, k := range mk {
+		w := written[k]
+		if w.must == "" {
+			continue
+		}
+		e, ok := post[k]
+		if !ok {
+			h.viol(w.must, fmt.Sprintf("key %s holds nothing after the read that had to load it: the next read will query the database again", k), map[string]any{"after_op": post})
+			continue
+		}
+		h.c.Obs("uncached_reads_cached_afterwards", 1)
+		if e.Val == "*" {
+			h.state(k).nfShape = shapeName(w.shape)
+			h.c.Obs("markers_written_for_shape_"+shapeName(w.shape), 1)
+		}
+	}
 	for k := range h.prev {
 		if _, still := post[k]; !still {
 			h.state(k).polluted = false
+			h.state(k).nfShape = ""
 			if ff {
 				h.expired++
 			}
